@@ -15,8 +15,10 @@ CONFIG = dict(
           "pairs of permutations of 0..n, n<=5, plus non-permutations and seeded permutations of length 6..10; arithmetic "
           "crossover on seeded parents with alphas from a grid incl. 0 and 1. (2) components executed through the real "
           "`Component::execute` on a State: seeded populations of dimension 1..8, rates {0,0.5,1}, probabilities {0,0.3,1}, with "
-          "the witness (indices/masks/draws) recovered from unique element tags. Inputs outside the documented domain go to the "
-          "`!malformed` sites and never count as violations. A case is non-trivial if its input has at least 3 elements in some "
+          "the witness (indices/masks/draws) recovered from unique element tags. Components generic over an identifier are also run as `<A>` instances, alone and next to "
+          "the Global instance with a different rate/strength (each must follow its own parameters). Guard corners (negative, "
+          "infinite, NaN strength and rate) are generated; inputs outside the documented domain go to the `!malformed` sites and "
+          "never count as violations (the model must still agree on them). A case is non-trivial if its input has at least 3 elements in some "
           "list; distinct = distinct canonical input."),
     nontrivial=lambda inp: re.search(r"\((?:[^()\s]+ ){2,}[^()\s]+\)", inp) is not None,
     trusted_base=[
@@ -34,12 +36,15 @@ CONFIG.update(
                 "panics, is position-wise and returns permutations (loop invariant over the cycle table); arithmetic crossover is "
                 "convex and conserves coordinate sums (ordered field); components as functions of witnesses: rate-gated mutations "
                 "keep the dimension and are the identity at rate 0, the five permutation mutations return permutations for every "
-                "legal witness, the recombination frame's offspring counts, DEMutation's format, DE crossovers position-wise, the "
+                "legal witness, the parameter guards (as functions of the parameter value incl. NaN/inf, shared with the driver) accept "
+                "exactly the stated sets, NPointCrossover/UniformCrossover as components are position-wise (NPoint for 1 <= n < dim), the recombination frame's offspring counts, DEMutation's format, DE crossovers position-wise, the "
                 "crossover gate u < pc (probability 0 never crosses, probability 1 always does, for every draw; exercised with an all-zero generator)."
                 " Tied to /repo by running the real helpers exhaustively in a small "
                 "scope and the real components on seeded populations, diffing against the compiled model (K) and evaluating the "
                 "property predicate on the implementation's output (O)."),
-    level_note=("Trusted: Lean kernel; slice/iterator primitives represented by list semantics; harness + driver printing. "
+    level_note=("partial: the clause 'no operator panics on a valid population' is narrowed for NPointCrossover to 1 <= n < dim: "
+                "the constructor accepts every n, and n = 0 / n >= dim panics whenever a pair is crossed (known finding "
+                "NPointCrossover@n-out-of-range [panic], Lean: npoint_n_out_of_range_violates). Trusted: Lean kernel; slice/iterator primitives represented by list semantics; harness + driver printing. "
                 "partial: sampling algorithms of `rand` are outside the model (witness refinement); floating-point rounding in "
                 "arithmetic crossover / DE mutation is modelled in exact arithmetic in the theorems and compared with tolerance."),
     timeout_quick=600,
